@@ -1246,7 +1246,7 @@ class Interp:
             guard()
 
             def clear(it, a, k):
-                d.entries = []
+                del d.entries[:]          # in place: mapping proxies of this dict share the list
             return NativeFunc(clear)
         if not hasattr(dict, name):
             I.raise_("AttributeError", f"'dict' object has no attribute '{name}'")
@@ -2733,7 +2733,9 @@ def _mod_types(I):
         src = a[0]
         if not isinstance(src, PDict):
             I.raise_("TypeError", "mappingproxy() argument must be a mapping")
-        d = PDict(I, src.entries, frozen=True)
+        # a LIVE read-only view: the proxy shares the entry list of the dict it wraps
+        d = PDict(I, [], frozen=True)
+        d.entries = src.entries
         return d
     return PModule("types", {"MappingProxyType": NativeFunc(mpt, "MappingProxyType")})
 
